@@ -73,7 +73,17 @@ func (f *zzvSidReal) pair(t *testing.T) (d, a *Connection, cleanup func()) {
 	idA, _ := identity.NewAgentID()
 	d = NewConnection(dc, DefaultConnectionConfig(idD))
 	a = NewConnection(ar.c, DefaultConnectionConfig(idA))
-	return d, a, func() { d.Close(); a.Close() }
+	return d, a, func() { zzvSidCloseBoth(d, a) }
+}
+
+// zzvSidCloseBoth closes the two ends at the same time (a WebSocket end waits for the peer's close frame).
+func zzvSidCloseBoth(d, a *Connection) {
+	var wg sync.WaitGroup
+	for _, c := range []*Connection{d, a} {
+		wg.Add(1)
+		go func(c *Connection) { defer wg.Done(); c.Close() }(c)
+	}
+	wg.Wait()
 }
 
 func TestZZVStreamIdConn(t *testing.T) {
@@ -332,17 +342,15 @@ func TestZZVStreamIdFresh(t *testing.T) {
 		var after map[string][]uint64
 		if r%3 != 0 {
 			after = map[string][]uint64{}
+			zzvSidCloseBoth(conns["D"], conns["A"])
 			for _, e := range []string{"D", "A"} {
-				conns[e].Close()
 				for i := 0; i < 3; i++ {
 					after[e] = append(after[e], conns[e].NextStreamID())
 				}
 			}
 		}
 		cleanup()
-		for _, c := range conns {
-			c.Close()
-		}
+		zzvSidCloseBoth(conns["D"], conns["A"])
 		seen := map[string]map[uint64]bool{"D": {}, "A": {}}
 		put(zzvSidEv{Ev: "Reset", Nx: -1})
 		for _, e := range []string{"D", "A"} {
